@@ -71,6 +71,24 @@ Theorem C12_rotation4_evaluate_basis {F : Type} (K : Fops F) (Kf : is_field K) :
 Proof. exact (evaluate_basis_rotation_law K Kf). Qed.
 Print Assumptions C12_rotation4_evaluate_basis.
 
+(* the density bilinear form: [bsum bs f] = sum of f i m a over all functions (shell i, segment m, component a) of the
+   basis; [rot_density R bs P] = W^T P W block-wise,
+     P'(i,m,a'; j,m',b') = sum_{a,b} W_i^m[a,a'] P[gidx(i,m,a), gidx(j,m',b)] W_j^m'[b,b'] *)
+Theorem C12_rotation4_density {F : Type} (K : Fops F) (Kf : is_field K) :
+  (forall x, fapx K x = x) -> (forall c, dfnorm K c <> f0 K) ->
+  forall R, orthogonal K R -> forall bs, rot_basis_ok K bs -> ncont_nonzero K bs ->
+  forall (pts : list (point (F:=F))) (P : nat -> nat -> F) p, p < length pts ->
+  let E := evaluate_basis_model K bs pts None in
+  let E' := evaluate_basis_model K (rot_basis K R bs) (map (mapply K R) pts) None in
+  bsum K bs (fun i m a' => bsum K bs (fun j m' b' =>
+    fmul K (fmul K (rot_density K R bs P i m a' j m' b') (nth p (nth (gidx K bs i m a') E' []) (f0 K)))
+           (nth p (nth (gidx K bs j m' b') E' []) (f0 K))))
+  = bsum K bs (fun i m a => bsum K bs (fun j m' b =>
+    fmul K (fmul K (P (gidx K bs i m a) (gidx K bs j m' b)) (nth p (nth (gidx K bs i m a) E []) (f0 K)))
+           (nth p (nth (gidx K bs j m' b) E []) (f0 K)))).
+Proof. exact (density_rotation_invariant K Kf). Qed.
+Print Assumptions C12_rotation4_density.
+
 Theorem C12_rotation4_hypotheses_satisfiable :
   exists (F : Type) (K : Fops F) (R1 R2 : @mat3 F) (bs : list (shell F)),
     is_field K /\ (forall x y, fexp K (fadd K x y) = fmul K (fexp K x) (fexp K y)) /\ (forall x, fapx K x = x)
